@@ -35,8 +35,16 @@ fn inv64(m0: u64) -> u64 {
 /// Apply operation `op`; returns every `Uint` it produced and a label.
 #[allow(clippy::too_many_lines)]
 fn apply<const B: usize, const L: usize>(op: u64, a: Uint<B, L>, b: Uint<B, L>, k: u64) -> (&'static str, Vec<Uint<B, L>>) {
-    let sh = if B == 0 { 0 } else { (k % (2 * B as u64 + 3)) as usize };
-    let small: Uint<B, L> = Uint::wrapping_from(k % 70);
+    // amounts and exponents are NOT confined to the "sensible" domain: out-of-range arguments must
+    // still yield canonical values (or panic, which yields none)
+    let sh = if k % 13 == 0 {
+        usize::MAX - (k % 3) as usize
+    } else if k % 13 == 1 {
+        (k >> 4) as usize
+    } else {
+        (k % (2 * B as u64 + 3)) as usize
+    };
+    let small: Uint<B, L> = if k % 11 == 0 && B <= 256 { b } else { Uint::wrapping_from(k % 70) };
     let o = |x: Option<Uint<B, L>>| x.into_iter().collect::<Vec<_>>();
     match op {
         0 => ("wrapping_add", vec![a.wrapping_add(b)]),
@@ -86,7 +94,7 @@ fn apply<const B: usize, const L: usize>(op: u64, a: Uint<B, L>, b: Uint<B, L>, 
         41 => ("overflowing_pow", vec![a.overflowing_pow(small).0]),
         42 => ("saturating_pow", vec![a.saturating_pow(small)]),
         43 => ("checked_pow", o(a.checked_pow(small))),
-        44 => ("root", vec![a.root((k % 6 + 1) as usize)]),
+        44 => ("root", vec![a.root((k % 8) as usize)]),
         45 => ("gcd", vec![a.gcd(b)]),
         46 => ("lcm", o(a.lcm(b))),
         47 => ("gcd_extended", {
